@@ -88,6 +88,49 @@ func TestReloadChangesRepeat(t *testing.T) {
 	sysrun.Run(t, "C04", sub, sysrun.Family{Name: "rcr", Quick: 40, Thorough: 1500, NonTrivial: nt, Gen: reloadChangesRepeat}, checkers(0))
 }
 
+// identicalReloads: a child route selected through several entries of the deprecated match / match_re
+// maps (whose order in Go's map iteration is arbitrary), one continuously firing group below it, and
+// reloads of the byte-identical configuration plus a restart that keeps the data directory. Nothing
+// changes for the receiver, so between repeat_intervals nothing may be sent.
+func identicalReloads(r *rand.Rand) *scen.Scenario {
+	gw, gi, ri := 10*time.Second, gen.Pick(r, []time.Duration{30 * time.Second, 2 * time.Minute}), 4*time.Hour
+	gb := []string{"alertname"}
+	child := &model.RouteSpec{Receiver: "r1",
+		Match:   map[string]string{"sev": "crit", "team": "x", "env": "p"},
+		MatchRE: map[string]string{"alertname": "A|B", "zone": "z.*"}}
+	if r.Intn(2) == 0 {
+		child.Matchers = []model.Matcher{{Name: "dc", Op: "!=", Value: "none"}}
+	}
+	cfg := &scen.Config{ResolveTimeout: 5 * time.Minute,
+		Route:     &model.RouteSpec{Receiver: "r0", GroupBy: &gb, GroupWait: &gw, GroupInterval: &gi, RepeatInterval: &ri, Routes: []*model.RouteSpec{child}},
+		Receivers: []scen.Receiver{{Name: "r0", Integs: []scen.Integ{{SendResolved: true}}}, {Name: "r1", Integs: []scen.Integ{{SendResolved: true}}}}}
+	s := &scen.Scenario{Config: cfg, Duration: 3 * time.Hour, Retention: 120 * time.Hour, MaintenanceInterval: 15 * time.Minute}
+	l := model.Labels{"alertname": "A", "sev": "crit", "team": "x", "env": "p", "zone": "z1", "dc": "d"}
+	end := 5 * time.Minute
+	for at := 7*time.Second + 123*time.Millisecond; at < s.Duration-40*time.Minute; at += 2 * time.Minute {
+		s.Ops = append(s.Ops, scen.Op{At: at, Kind: "alerts", Alerts: []scen.PostSpec{{Labels: l, EndOff: &end}}})
+	}
+	for k := 0; k < 8; k++ {
+		at := time.Duration(10+k*15)*time.Minute + time.Duration(r.Intn(60000))*time.Millisecond
+		if k == 5 {
+			s.Ops = append(s.Ops, scen.Op{At: at, Kind: "restart", Keep: true})
+		} else {
+			s.Ops = append(s.Ops, scen.Op{At: at, Kind: "reload", Config: cfg})
+		}
+	}
+	// the client stops after 2 h 20 min: the alert resolves and the resolution is the second (and last) notification
+	sort.SliceStable(s.Ops, func(i, j int) bool { return s.Ops[i].At < s.Ops[j].At })
+	return s
+}
+
+func TestIdenticalReloads(t *testing.T) {
+	if vf.RaceEnabled {
+		t.Skip("race pass: only the parallel-flush family")
+	}
+	sub := vf.Cur().Sub("identical-reloads", fmt.Sprintf(rule, "targeted: one continuously firing group below a child route selected by 3 match and 2 match_re entries (arbitrary map order) and optionally a new-style matcher; 7 reloads of the byte-identical configuration and one restart with the data directory kept, 3 h of virtual time with repeat_interval 4 h: only the first notification and the resolution at the end are permitted"), 8)
+	sysrun.Run(t, "C04", sub, sysrun.Family{Name: "idrel", Quick: 24, Thorough: 1000, NonTrivial: nt, Gen: identicalReloads}, checkers(0))
+}
+
 // manyGroupsOneTick: 48 groups created by one POST, hence flushing at the same virtual instants on
 // several Ps in parallel (the per-alert hashing, the log and the dedup state are shared code), two
 // integrations each, re-sent unchanged for ten group intervals.
